@@ -164,6 +164,7 @@ class Report:
                 solver="z3 " + _z3v(), second_solver=dict(engine="cvc5 (python wheel)", sampled_every=int(os.environ.get("VERIF_CROSSCHECK_EVERY", "0") or 0),
                                                             agree=self.stats.get("xcheck_agree", 0), disagree=self.stats.get("xcheck_disagree", 0),
                                                             cvc5_unknown=self.stats.get("xcheck_cvc5_unknown", 0), errors=self.stats.get("xcheck_error", 0),
+                                                            decided_after_z3_unknown=self.stats.get("decided_by_cvc5", 0),
                                                             seconds=round(self.stats.get("xcheck_s", 0.0), 1)), **self.extra),
             assumptions=self.assumptions, wall_s=round(wall, 2), violations=len(confirmed),
         )
